@@ -12,6 +12,7 @@ import (
 
 	"github.com/virus-evolution/gofasta/pkg/encoding"
 	"github.com/virus-evolution/gofasta/pkg/fastaio"
+	"github.com/virus-evolution/gofasta/pkg/vhook"
 )
 
 // updownLine is a struct for one records snps relative to a reference sequence and ambiguity tracts.
@@ -46,6 +47,7 @@ func writeOutput(w io.Writer, cudLs chan updownLine, cErr chan error, cWriteDone
 	var ambstrings []string
 
 	for udL := range cudLs {
+		vhook.Recv("updown.writeOutput", udL.idx)
 
 		outputMap[udL.idx] = udL
 
